@@ -115,9 +115,9 @@ def gen_struct_case(r, tier, wide_ok=True):
     kind = r.choice(KINDS)
     xs = gen_sample(r, kind, n)
     rng_ = max(xs) - min(xs)
-    # bandwidth from range/1000 to 100*range, log-uniform
+    # bandwidth from range/3500 (12 layers, 4096 regions) to 100*range, log-uniform
     u = r.random()
-    f = 10 ** (r.uniform(-3, -1.8) if u < 0.12 else r.uniform(-1.8, 0) if u < 0.7 else r.uniform(0, 2))
+    f = 10 ** (r.uniform(-3.55, -1.8) if u < 0.14 else r.uniform(-1.8, 0) if u < 0.7 else r.uniform(0, 2))
     h = dyadic_near(rng_ * Fraction(f).limit_denominator(10 ** 6))
     return {"sample": xs, "h": h, "kind": kind}
 
@@ -638,6 +638,28 @@ def run(rep: C.Report, tier: str) -> int:
         case, obs = cases[k], obs_l[k]
         pts = obs.get("points") or [min(case["sample"]), max(case["sample"])]
         bad = property_failures(case["sample"], case["h"], pts, rs)
+        if not bad:
+            # targeted search: points within 3.4 bandwidths of a sample (where a kernel left out of the
+            # slice would exceed the truncation bound)
+            uniq = sorted(set(case["sample"]))[:40]
+            extra = [x + Fraction(c, 5) * case["h"] for x in uniq for c in range(-17, 18)]
+            b2 = property_failures(case["sample"], case["h"], extra, rs, deep=False)
+            if b2:
+                bad, pts = b2, extra
+        if not bad:
+            # neighbouring inputs: the same sample with a narrower user bandwidth (more regions), evaluated
+            # on and next to the samples
+            for div in (8, 64, 512):
+                h2 = case["h"] / div
+                uniq = sorted(set(case["sample"]))[:40]
+                extra = [x + Fraction(c, 2) * h2 for x in uniq for c in (-2, -1, 0, 1, 2)]
+                try:
+                    b2 = property_failures(case["sample"], h2, extra, rs, deep=False)
+                except MemoryError:
+                    break
+                if b2:
+                    bad, pts, case = b2, extra, dict(case, h=h2)
+                    break
         reported += 1
         if bad:
             small = shrink_struct(case, pts)
